@@ -48,16 +48,17 @@ def _solve_job(job):
                 return oid, {"status": "unsat", "backend": "sympy-groebner", "time_s": round(_t.time() - t0, 3),
                              "attempts": ["lean-axioms:unknown", "sympy-groebner:ideal-membership"]}
         r = solve.solve_smt2(text, timeout_s=timeout, seed=seed, use_cvc5=not canary)
-        if r.get("status") == "sat" and "(declare-fun YD " in text and not canary:
+        if r.get("status") in ("sat", "unknown") and "(declare-fun YD " in text and not canary:
             # a model under the ABSTRACT calendar may be an artefact: decide again with the Gregorian closed forms
             from . import timesym
             s0 = z3.Solver()
             s0.add(timesym.exact_calendar(list(z3.parse_smt2_string(text))))
             r2 = solve.solve_smt2(s0.to_smt2(), timeout_s=timeout, seed=seed, use_cvc5=False)
-            r2["attempts"] = ["abstract-calendar:sat"] + r2.get("attempts", [])
+            r2["attempts"] = ["abstract-calendar:%s" % r.get("status")] + r2.get("attempts", [])
             if r2.get("status") == "unsat":
                 r2["backend"] = "z3(exact calendar)"
-            r = r2
+            if r2.get("status") != "unknown" or r.get("status") == "sat":
+                r = r2
     except Exception as exc:  # pragma: no cover
         r = {"status": "unknown", "backend": "none", "reason": "worker exception %s" % exc, "time_s": 0}
     return oid, r
